@@ -442,6 +442,12 @@ def applyAct (s : State) (fh fw : List Nat) : Act → State
     match nthMod fh k with
     | some o => let s1 := s.incStrong o; { s1 with roots := s1.roots ++ [o] }
     | none => s
+  | .downgradeField k =>
+    -- `Rc::downgrade(&self.out[k])`: allowed on a handle to an already destroyed peer; the new
+    -- Weak keeps the peer's bare allocation alive past the end of the collection
+    match nthMod fh k with
+    | some o => let s1 := s.incWeak o; { s1 with wroots := s1.wroots ++ [o] }
+    | none => s
 
 /-- the history alphabet -/
 inductive Op
